@@ -714,6 +714,164 @@ func GlobalIsErrSentinel(g *ssa.Global) bool {
 // helper was inlined: k is a phi of (nil, buf.Bytes()), err a phi of
 // (someError, nil); at f(k) the value is buf.Bytes().
 func ValueAt(v ssa.Value, use *ssa.BasicBlock) ssa.Value {
+	for round := 0; round < 6; round++ {
+		v = valueAtPhi(v, use)
+		w := freshStructField(v, use)
+		if w == nil {
+			return v
+		}
+		v = w
+	}
+	return v
+}
+
+// freshStructField: v loads field f of a struct that this function allocates
+// itself (a composite literal, possibly behind phis whose other edges are
+// infeasible at use or nil), never hands to anyone (its address is used for
+// field accesses, nil tests and phis only) and whose field f it stores exactly
+// once: the stored value. This is what is left of a small parameter / result
+// struct of a helper once the helper has been written out in its caller. nil
+// when v is not such a load.
+func freshStructField(v ssa.Value, use *ssa.BasicBlock) ssa.Value {
+	ld, ok := v.(*ssa.UnOp)
+	if !ok || ld.Op != token.MUL {
+		if f, isF := v.(*ssa.Field); isF {
+			// field of a struct value loaded from such a cell
+			if l2, ok2 := f.X.(*ssa.UnOp); ok2 && l2.Op == token.MUL {
+				if a := freshAlloc(l2.X, use); a != nil {
+					return singleFieldStore(a, f.Field)
+				}
+			}
+		}
+		return nil
+	}
+	fa, ok := ld.X.(*ssa.FieldAddr)
+	if !ok {
+		return nil
+	}
+	a := freshAlloc(fa.X, use)
+	if a == nil {
+		return nil
+	}
+	return singleFieldStore(a, fa.Field)
+}
+
+func freshAlloc(p ssa.Value, use *ssa.BasicBlock) *ssa.Alloc {
+	p = valueAtPhi(p, use)
+	if ph, isPhi := p.(*ssa.Phi); isPhi {
+		// all non-nil edges are one alloc
+		var one ssa.Value
+		for _, e := range ph.Edges {
+			e = valueAtPhi(e, use)
+			if IsNil(e) {
+				continue
+			}
+			if one != nil && one != e {
+				return nil
+			}
+			one = e
+		}
+		p = one
+	}
+	a, ok := p.(*ssa.Alloc)
+	if !ok {
+		return nil
+	}
+	if _, isStruct := a.Type().(*types.Pointer).Elem().Underlying().(*types.Struct); !isStruct {
+		return nil
+	}
+	// the address stays in the function
+	seen := map[ssa.Value]bool{}
+	var local func(x ssa.Value) bool
+	local = func(x ssa.Value) bool {
+		if seen[x] {
+			return true
+		}
+		seen[x] = true
+		for _, r := range Refs(x) {
+			switch r := r.(type) {
+			case *ssa.FieldAddr:
+				var inner func(fa *ssa.FieldAddr) bool
+				inner = func(fa *ssa.FieldAddr) bool {
+					for _, rr := range Refs(fa) {
+						switch rr := rr.(type) {
+						case *ssa.Store:
+							if rr.Addr != ssa.Value(fa) {
+								return false
+							}
+						case *ssa.UnOp:
+							if rr.Op != token.MUL {
+								return false
+							}
+						case *ssa.FieldAddr:
+							if !inner(rr) {
+								return false
+							}
+						case *ssa.DebugRef:
+						default:
+							return false
+						}
+					}
+					return true
+				}
+				if !inner(r) {
+					return false
+				}
+			case *ssa.Phi:
+				if !local(r) {
+					return false
+				}
+			case *ssa.BinOp:
+				if r.Op != token.EQL && r.Op != token.NEQ {
+					return false
+				}
+			case *ssa.UnOp:
+				// a load of the whole struct (copy into a value)
+				if r.Op != token.MUL {
+					return false
+				}
+			case *ssa.Store:
+				// the composite literal written as a whole into the cell
+				if r.Addr != x {
+					return false
+				}
+				return false
+			case *ssa.DebugRef:
+			default:
+				return false
+			}
+		}
+		return true
+	}
+	if !local(a) {
+		return nil
+	}
+	return a
+}
+
+func singleFieldStore(a *ssa.Alloc, field int) ssa.Value {
+	var val ssa.Value
+	n := 0
+	for _, r := range Refs(a) {
+		fa, ok := r.(*ssa.FieldAddr)
+		if !ok || fa.Field != field {
+			continue
+		}
+		for _, rr := range Refs(fa) {
+			if st, isSt := rr.(*ssa.Store); isSt && st.Addr == ssa.Value(fa) {
+				n++
+				// (what the phis it is made of hold where the store stands)
+				val = valueAtPhi(st.Val, st.Block())
+			}
+		}
+	}
+	if n != 1 {
+		return nil
+	}
+	return val
+}
+
+func valueAtPhi(v ssa.Value, use *ssa.BasicBlock) ssa.Value {
 	for depth := 0; depth < 4; depth++ {
 		ph, ok := v.(*ssa.Phi)
 		if !ok || use == nil {
